@@ -212,6 +212,14 @@ func init() {
 			} {
 				g.emit(vmCase{"-", p, []string{"web1 procs=240 load=0.5", "web2 procs=12 load=1.5", "w procs=0 load=0.0", "nomatch", " procs=1 load=0.1"}}.fields()...)
 			}
+			// a histogram observes whatever number arrives, NaN and the infinities included
+			for _, p := range []string{
+				"histogram h buckets 1, 2, 4\n/^v (\\S+)$/ {\n  h = $1\n}\n",
+				"histogram h by k buckets 0.5, 1\n/^(\\w+) (\\d+\\.\\d+) (\\d+\\.\\d+)$/ {\n  h[$1] = $2 / $3\n}\n",
+				"histogram h buckets 1, 2, 4, 8, 16, 32, 64, 128, 256, 512, 1024, 2048, 4096, 8192, 16384, 32768, 65536\n/^v (\\S+)$/ {\n  h = $1\n}\n",
+			} {
+				g.emit(vmCase{"-", p, []string{"v NaN", "v nan", "v +Inf", "v -Inf", "v 3", "cache 0.0 0.0", "cache 1.0 0.0", "cache 0.0 1.0", "v 1e999", "v x"}}.fields()...)
+			}
 			// every expression that has no value (a pattern, a pattern constant, a call that returns
 			// nothing) in every place that takes a value: each argument of each builtin, an index key,
 			// the text of a match, an operand, an assigned value
